@@ -564,6 +564,34 @@ def consumed_text(chk, fb):
                             if lu is not None and "Iterator::next(" in rel.cstr(x) and rel.cstr(x).startswith(".0(.0("):
                                 pos = (lu[2], lu[1])
     if pos is None:
+        # offset-driven form: `while let Some(c) = text.get(pos..).and_then(|r| r.chars().next())` - the read position is the
+        # loop-carried start of the range the current character is taken from
+        def starts(v, out, depth=0):
+            if depth > 40:
+                return
+            if isinstance(v, Variant):
+                if v.adt.endswith("RangeFrom") and loops.loop_unknown(v.fields.get("start")) is not None:
+                    out.append(v.fields["start"])
+                for x in v.fields.values():
+                    starts(x, out, depth + 1)
+            elif isinstance(v, App):
+                for x in v.args:
+                    starts(x, out, depth + 1)
+            elif isinstance(v, Tup):
+                for x in v.elems:
+                    starts(x, out, depth + 1)
+        cand = {}
+        for t in gen:
+            for d in t.decisions:
+                if "core::str::<impl str>::get(text, RangeFrom{start: " in rel.cstr(d[1]):
+                    found_ = []
+                    starts(rel.canon(d[1]), found_)
+                    for y in found_:
+                        lu = loops.loop_unknown(y)
+                        cand[(lu[2], lu[1])] = cand.get((lu[2], lu[1]), 0) + 1
+        if len(cand) == 1:
+            pos = next(iter(cand))
+    if pos is None:
         chk.unrecognised("R07.6", "position", "read position of the tokenizer not identified", where)
         return
     H, L = pos
